@@ -272,3 +272,77 @@ def msize_case(ctx, cfg, rnd, exact_code, selector, compile_src):
     if rv is None or rv.out != word(a) or exact_code(ch, u) != bytes.fromhex(child["bytecode_runtime"][2:]):
         probs.append("create_from_blueprint inside the constructor did not create the child correctly")
     return [f"{x}; inputs={inputs}" for x in probs], st
+
+
+# ---------------------------------------------------------------- early `return` inside __init__
+# (fixed defect "venom-ctor-early-return-deploys-empty": venom lowered a constructor `return` to STOP, so an
+# EMPTY contract was deployed; every exit of the constructor must reach the deploy epilogue)
+
+def _ret_sources():
+    base_state = "s: public(uint256)\nt: public(uint256)\n"
+    ping = "\n@external\ndef ping() -> uint256:\n    return self.s + 1\n"
+    out = {}
+    for imm in (False, True):
+        for pragma in (False, True):
+            head = ("# pragma nonreentrancy on\n" if pragma else "") + base_state
+            decl = "A: public(immutable(uint256))\nB: public(immutable(Bytes[40]))\n" if imm else ""
+            sig = "a: uint256, b: Bytes[40]" if imm else "a: uint256"
+            setimm = "    A = a\n    B = b\n" if imm else ""
+            tag = ("imm" if imm else "noimm") + ("+pragma" if pragma else "")
+            out["cond:" + tag] = (head + decl + f"\n@deploy\ndef __init__({sig}):\n{setimm}    self.s = a\n"
+                                  "    if a > 5:\n        return\n    self.t = a + 1\n" + ping,
+                                  lambda a: (a, 0 if a > 5 else a + 1))
+            out["last:" + tag] = (head + decl + f"\n@deploy\ndef __init__({sig}):\n{setimm}    self.s = a\n    self.t = 3\n    return\n" + ping,
+                                  lambda a: (a, 3))
+            out["loop:" + tag] = (head + decl + f"\n@deploy\ndef __init__({sig}):\n{setimm}"
+                                  "    for i: uint256 in range(10):\n        if i == a:\n            self.s = i + 100\n"
+                                  "            return\n        self.t += 1\n    self.s = 7\n" + ping,
+                                  lambda a: (a + 100, a) if a < 10 else (7, 10))
+            out["chain:" + tag] = (head + decl + f"\n@deploy\ndef __init__({sig}):\n{setimm}    self._setup(a)\n    self.t = 9\n"
+                                   "\n@internal\ndef _setup(a: uint256):\n    if a > 5:\n        self.s = 1\n        return\n"
+                                   "    self._deeper(a)\n\n@internal\ndef _deeper(a: uint256):\n    if a == 2:\n        return\n"
+                                   "    self.s = 2\n" + ping,
+                                   lambda a: (1 if a > 5 else (0 if a == 2 else 2), 9))
+    return out
+
+
+def early_return_cases(ctx, cfg, rnd, exact_code, selector, compile_src):
+    from eth_abi import encode
+    probs, n = [], 0
+    skipped = {}
+    for name, (src, expect) in _ret_sources().items():
+        imm = ":imm" in name
+        try:
+            out = compile_src(src, cfg, formats=("bytecode", "bytecode_runtime", "layout"))
+        except Exception as e:  # noqa
+            skipped[f"{name}:{type(e).__name__}"] = str(e)[:80]
+            continue
+        init = bytes.fromhex(out["bytecode"][2:])
+        rt = bytes.fromhex(out["bytecode_runtime"][2:])
+        layout = flat_layout(out["layout"].get("code_layout", {}))
+        imm_len = sum(v["length"] for v in layout.values())
+        for a in (0, 2, 3, 6, 9, 10, 11):
+            b = bytes(rnd.randrange(256) for _ in range(rnd.choice([0, 17, 40])))
+            args = encode(["uint256", "bytes"], [a, b]) if imm else encode(["uint256"], [a])
+            ch = Chain(cfg.evm)
+            addr = ch.deploy(init + args)
+            n += 1
+            if addr is None:
+                probs.append((name, src, "deployment fails", a))
+                continue
+            code = exact_code(ch, addr)
+            if code[:len(rt)] != rt or len(code) != len(rt) + imm_len:
+                probs.append((name, src, f"deployed code has {len(code)} bytes, expected bytecode_runtime ({len(rt)}) ++ "
+                                         f"{imm_len} immutable bytes" + (" -- EMPTY contract deployed" if not code else ""), a))
+                continue
+            es, et = expect(a)
+            got = [ch.call(addr, selector(g + "()")).out for g in ("s", "t")]
+            if got != [word(es), word(et)]:
+                probs.append((name, src, f"s,t = {[x.hex()[-6:] for x in got]} expected {es},{et}", a))
+            if imm:
+                if ch.call(addr, selector("A()")).out != word(a) or ch.call(addr, selector("B()")).out != encode(["bytes"], [b]):
+                    probs.append((name, src, "immutables do not read back", a))
+            r = ch.call(addr, selector("ping()"))
+            if not r.ok or r.out != word(es + 1):
+                probs.append((name, src, "runtime function fails after deployment (lock left held?)", a))
+    return probs, n, skipped
